@@ -6,7 +6,7 @@ import framing
 COQ_HEADER = "From SPP Require Import Base.Bytes Base.Sx Corr.Framer.\nFrom Coq Require Import ZArith List. Import ListNotations."
 COQ_MODEL = "run_frame"
 COQ_OK = "(ok_spec run_frame)"   # the property determines the output uniquely (greedy complete packets), see DESIGN C10
-COQ_INPUT_TYPE = "Z * Z * list (Z * Z) * list Z"
+COQ_INPUT_TYPE = "Z * Z * Z * list (Z * Z) * list Z"
 RULE = ("valid streams of 1-4 small packets cut at EVERY byte offset x {bytes, file r in {None,1,5,7}, socket bytewise/random}; "
         "empty input; random byte strings; distinct = distinct (kind, k, cut position class, chunking class, #items)")
 ASSUMPTIONS = ["a socket that neither sends nor closes blocks by design (outside the property)",
@@ -50,22 +50,30 @@ def gen(rng, tier):
         if kind == 2:
             sizes = [len(c) for c in framing.cut(s, sizes)]
         cases.append({"kind": kind, "k": k, "stream": s.hex(), "sizes": sizes, "r": r})
+    # every fourth case also with the buffer-trim literal of the code object replaced by a small number
+    for c in list(cases[::4]):
+        cases.append(dict(c, T=rng.choice([0, 1, 6, 7, 20, 100])))
+    for c in cases:
+        c.setdefault("T", framing.TRIM_LITERAL)
     return cases
 
 
 def impl(case):
     s = bytes.fromhex(case["stream"])
-    return core.res_sx(core.guarded(framing.run_generator, case["kind"], case["k"], s, case["sizes"], case["r"], timeout_s=5))
+    case.setdefault("T", framing.TRIM_LITERAL)
+    if framing.generator_with_trim(case["T"]) is None:
+        case["T"] = framing.TRIM_LITERAL
+    return core.res_sx(core.guarded(framing.run_generator, case["kind"], case["k"], s, case["sizes"], case["r"], None, case["T"], timeout_s=5))
 
 
 def coq_input(case):
-    return f"({case['kind']}, {case['k']}, {core.cbytes(bytes.fromhex(case['stream']))}, {core.clist(str(s) for s in case['sizes'])})"
+    return f"({case.get('T', framing.TRIM_LITERAL)}, {case['kind']}, {case['k']}, {core.cbytes(bytes.fromhex(case['stream']))}, {core.clist(str(s) for s in case['sizes'])})"
 
 
 def key(case):
     ln = len(case["stream"]) // 2
     ch = "none" if not case["sizes"] else ("one" if len(case["sizes"]) == 1 else ("bytewise" if max(case["sizes"]) == 1 else "multi"))
-    return (case["kind"], case["k"], min(ln, 40), ch)
+    return (case["kind"], case["k"], min(ln, 40), ch, case.get("T", framing.TRIM_LITERAL) != framing.TRIM_LITERAL)
 
 
 def branch(case, out):
